@@ -1,6 +1,7 @@
 package rules
 
 import (
+	"fmt"
 	"go/token"
 	"go/types"
 
@@ -366,6 +367,7 @@ func runC05(p *core.Prog, r *core.Result) {
 		"R5.2 when the check reports a cycle no wait() is reachable and every result carries that error",
 		"R5.3 the cyclic-dependency error is constructed only where the walk has come back to the engine's own root",
 		"R5.4 wait/wake discipline of target and gate (no lost wake-up)",
+		"R5.6 a request whose cycle check failed returns without waiting for anything (every wait() in EvaluateTargets is on the nil-error edge of the cycle check), so a detected cycle's edges are withdrawn and never walked again",
 		"R5.5 dependencies are awaited outside a slot (needed for termination at limit 1)",
 	}
 	r.NotDecided = []string{"termination under every interleaving (needs schedule exploration or a model; in particular the recursion of check through a cycle not containing the root)", "that every cycle is reported"}
@@ -491,6 +493,32 @@ func runC05(p *core.Prog, r *core.Result) {
 	r.Floor("R5.4", len(waits), 1, "sync.Cond.Wait call sites in the module")
 	checkWakes(p, r, "R5.4", waits, pkgRunner, "target")
 	checkWakes(p, r, "R5.4", waits, pkgRunner, "gate")
+	// R5.6 a requester that detected a cycle does not go on waiting: the walk in check has no visited set and relies
+	// on the first detector returning at once (which withdraws its published edges); every wait() in EvaluateTargets
+	// is therefore on the nil-error edge of every cycle check made there
+	waitFn := a.wait
+	if waitFn != nil {
+		var checks []*ssa.Call
+		for _, c := range core.Calls(a.evalTargets) {
+			if call, ok := c.(*ssa.Call); ok && (core.Callee(c) == a.check || core.Callee(c) == a.checkDeps) {
+				checks = append(checks, call)
+			}
+		}
+		nW := 0
+		for _, w := range core.CallsTo(a.evalTargets, waitFn) {
+			nW++
+			ok := len(checks) > 0
+			for _, c := range checks {
+				nn, known := p.FactsAt(w.(ssa.Instruction)).ErrNonNil(c)
+				if !known || nn {
+					ok = false
+				}
+			}
+			r.Check(ok, "R5.6", fmt.Sprintf("runner.(*engine).EvaluateTargets#wait-only-without-cycle-%d", nW), p.InstrPos(w.(ssa.Instruction)), "dependencies are awaited only after every cycle check of this request came back clean", "a dependency is awaited although a cycle check of this request may have failed (or its outcome is not branched on): the requester then stays blocked with its wait edges published next to a detected cycle, and the walk of a later requester - which has no visited set - recurses through that cycle without end (stack overflow) instead of reporting it")
+		}
+		r.Floor("R5.6", nW, 1, "wait calls in EvaluateTargets")
+	}
+
 	// R5.5
 	checkWaitOutsideSlot(p, r, a, "R5.5")
 }
